@@ -464,6 +464,10 @@ def main():
         if kspec:
             prefixes = list(kspec["prefix"]) + (list(kspec.get("thorough_prefix", [])) if a.tier == "thorough" else [])
             hs = list_harnesses(prefixes)
+            only = os.environ.get("VERIF_ONLY")  # development aid: restrict to harnesses matching a regex (evidence then says so)
+            if only:
+                hs = {k: v for k, v in hs.items() if re.search(only, k)}
+                undecided.append("VERIF_ONLY=%s: partial run, not a verdict" % only)
             if not hs:
                 undecided.append("kani: no harness with prefixes %s" % prefixes)
             else:
